@@ -24,6 +24,7 @@ transforms:
   npkw       np.zeros(s) -> np.zeros(shape=s), np.full(s, v) -> np.full(fill_value=v, shape=s)
   comp2loop  X = [E for T in IT] -> X = []; for T in IT: X.append(E)
   aliasself  the most-read attribute self.<a> of a method read once into a local at the top of the method
+  renamenon5 rename + a `pass` in every function (the reference names cannot be restored: rules must be name-free on their own)
   rename     every purely local variable v of a function renamed v_r  (parameters, globals, closure variables untouched)
 """
 import ast, sys, os, json, copy, multiprocessing as mp
@@ -443,7 +444,19 @@ class AliasSelf(ast.NodeTransformer):
         return f
 
 
-TRANSFORMS = {"cmpneg": CmpNeg, "guardnest": GuardNest, "toifexp": ToIfExp, "npkw": NpKw, "comp2loop": Comp2Loop, "aliasself": AliasSelf, "flipcmp": FlipCmp, "commute": Commute, "retvar": RetVar, "kworder": KwOrder, "ifinvert": IfInvert, "rename": Rename, "combo": Combo, "swapadj": SwapAdj, "dropelse": DropElse, "addelse": AddElse, "extractvar": ExtractVar, "kw2pos": None, "aug2assign": Aug2Assign}
+class RenameNoN5(ast.NodeTransformer):
+    """rename every purely local variable AND add a `pass` to every function, so that the function no longer matches its reference digest and N5 cannot give the
+    reference names back: the rules themselves must not depend on what locals are called"""
+    def visit_Module(self, n):
+        n = Rename().visit(n)
+        for f in ast.walk(n):
+            if isinstance(f, (ast.FunctionDef, ast.AsyncFunctionDef)):
+                k = 1 if (f.body and isinstance(f.body[0], ast.Expr) and isinstance(f.body[0].value, ast.Constant) and isinstance(f.body[0].value.value, str)) else 0
+                f.body.insert(k, ast.Pass())
+        return n
+
+
+TRANSFORMS = {"renamenon5": RenameNoN5, "cmpneg": CmpNeg, "guardnest": GuardNest, "toifexp": ToIfExp, "npkw": NpKw, "comp2loop": Comp2Loop, "aliasself": AliasSelf, "flipcmp": FlipCmp, "commute": Commute, "retvar": RetVar, "kworder": KwOrder, "ifinvert": IfInvert, "rename": Rename, "combo": Combo, "swapadj": SwapAdj, "dropelse": DropElse, "addelse": AddElse, "extractvar": ExtractVar, "kw2pos": None, "aug2assign": Aug2Assign}
 
 
 def _kw2pos_sources():
